@@ -717,7 +717,8 @@ def rule_str_slices(ctx):
         for bb, f, args in sv.call_args(lambda f: re.search(_STR_SLICE, f)):
             n += 1
             t = " ".join(args[1:])
-            nz = set(x for x in re.findall(r"(?<![\w.$@#])(\d+)(?![\w.])", t) if x != "0")
+            nz = set(x for x in re.findall(r"(?<![\w.$@#])(\d+)(?![\w.])", t) if x != "0") | \
+                set(x.split("::")[-1] for x in re.findall(r"const:([^\s()]+)", t) if not x.startswith("?"))
             loc = [facts.bodies()[fn]["loc"][0], M.Body(fn, m).term(bb).get("ln")]
             inv = SLICE_CONSTANTS.get(base)
             if not sv.stable or "phi@" in t:
@@ -839,6 +840,8 @@ def run(ctx):
     rule_index_sites(ctx)
     from . import c04
     c04.rule_monadic_translation(ctx)
+    rule_checker_panic_sites(ctx)
+    rule_report_spans(ctx)
     ctx.assume("capacity conversions (usize -> u32 ids/offsets) are out of scope: inputs are below 4 GiB")
     ctx.assume("the ~100 `let .. else { unreachable!(..query-produced..) }` tests of query results in check/mod.rs, "
                "termination, and 'locations lie inside the file' are NOT decided (run-time quantities)")
@@ -932,7 +935,7 @@ def rule_index_sites(ctx):
         if "::tests::" in fn or "{closure" in fn:
             continue
         f0 = bd["loc"][0]
-        if not f0.startswith(("lang/syntax/", "lang/surface/", "lang/statics/", "lang/session/", "lang/utils/")) or f0.endswith("lexer.rs"):
+        if not f0.startswith(("lang/syntax/", "lang/surface/", "lang/statics/", "lang/session/", "lang/utils/")) or " as logos::Logos" in fn:
             continue
         if bd.get("expn") or re.search(r"::_::|builder::Builder_|update_fields$", fn):
             continue
@@ -960,3 +963,119 @@ def rule_index_sites(ctx):
             ctx.ok(rule, key, {"sites": cnt, "in_range_because": want[1]})
     ctx.floor(rule, "front-end functions inspected", n_fns, 1500)
     ctx.floor(rule, "positional index sites classified", sum(seen.values()), 40)
+
+
+def _checker_panic_sites(facts):
+    """(key -> count, key -> loc) for the panic sites of lang/statics/src/check/ and elaborate/ that are NOT the `query-produced` idiom"""
+    from . import c01
+    seen, locs = {}, {}
+    n_fns = 0
+
+    def lits(n):
+        out = []
+        for y in H.walk(n):
+            if H.kind(y) == "Lit":
+                v = y.get("lit") or y.get("v")
+                out.append(v.get("str") if isinstance(v, dict) else v)
+        return [x for x in out if isinstance(x, str)]
+    for fn, bd in sorted(facts.bodies().items()):
+        f0 = bd["loc"][0]
+        if not f0.startswith(("lang/statics/src/check/", "lang/statics/src/elaborate/")) or "::tests::" in fn or "{closure" in fn:
+            continue
+        if "/dump/" in f0 or f0.endswith("error.rs"):
+            continue    # printing of diagnostics and debug dumps: exit-path rule
+        h = facts.hir(fn)
+        if not h:
+            continue
+        n_fns += 1
+        owner = c01._short_owner(fn)
+        par = c01._parents(h["body"])
+
+        def arms_of(x):
+            out, cur = [], x
+            while id(cur) in par:
+                p = par[id(cur)]
+                if H.kind(p) == "Match" and not p.get("src"):
+                    for a in p["arms"]:
+                        if a is cur or a["body"] is cur or a.get("guard") is cur:
+                            out.append(re.sub(r"[({].*", "", A.pat_shape(a["pat"]).split("|")[0]))
+                cur = p
+            return "/".join(reversed(out))[-60:]
+        for x in H.walk(h["body"]):
+            k = H.kind(x)
+            key = None
+            if k == "MethodCall" and x["name"] in ("expect", "unwrap") and re.search(r"(Option|Result)<", x.get("recv_ty") or ""):
+                key = "%s:%s:%s" % (owner, arms_of(x), x["name"])
+            elif k == "Call" and (H.callee(x) or "").startswith(("core::panicking::", "std::rt::begin_panic")):
+                ex = x.get("expn") or []
+                msg = " ".join(l for a in x["args"] for l in lits(a))
+                if "query-produced" in msg:
+                    continue
+                kind = "unreachable" if "unreachable" in ex else "assert" if any("assert" in e for e in ex) else "panic"
+                key = "%s:%s:%s" % (owner, arms_of(x), kind)
+            if key:
+                seen[key] = seen.get(key, 0) + 1
+                locs.setdefault(key, [f0, x.get("ln")])
+    return seen, locs, n_fns
+
+
+def rule_checker_panic_sites(ctx):
+    import json
+    import os
+    rule = "checker-panic-sites"
+    facts = ctx.facts
+    ctx.rule(rule, "the checker (lang/statics/src/check, elaborate) can panic only at the inventoried sites (panic! / unreachable! / assert! "
+                   "/ expect / unwrap outside the `query-produced` idiom), keyed by function, enclosing match arms and kind "
+                   "(rules/checker_panic_sites.json; each is an invariant the source declares, not proved here); a NEW site — or one "
+                   "more in an inventoried place — is reported: a lookup that a program can make fail must be a diagnostic (F55: unwrap "
+                   "of a destructor lookup in the monadic translation; F58: panic! on a variable without an annotation)")
+    path = os.path.join(os.path.dirname(os.path.dirname(os.path.dirname(os.path.dirname(os.path.abspath(__file__))))), "rules", "checker_panic_sites.json")
+    try:
+        table = json.load(open(path))
+    except OSError:
+        ctx.anchor_lost(rule, "rules/checker_panic_sites.json missing")
+        return
+    seen, locs, n_fns = _checker_panic_sites(facts)
+    for key, cnt in sorted(seen.items()):
+        want = table.get(key)
+        if want is None or cnt > want:
+            ctx.violation(rule, key + (":extra" if want else ""), "the checker can panic at a site that is not in the audited inventory (%s, "
+                          "%d site(s), %d inventoried): if a program can reach it, `zydeco check` aborts instead of reporting a diagnostic"
+                          % (key, cnt, want or 0), locs[key])
+        else:
+            ctx.ok(rule, key, {"sites": cnt})
+    ctx.floor(rule, "checker functions inspected", n_fns, 300)
+    ctx.floor(rule, "checker panic sites classified", sum(seen.values()), 40)
+
+
+def rule_report_spans(ctx):
+    rule = "report-spans"
+    facts = ctx.facts
+    ctx.rule(rule, "every ariadne report is built with the shared configuration whose index type is Byte: all spans of the front end "
+                   "(lexer ranges, lalrpop locations, Span cursors) are BYTE ranges, ariadne counts characters by default, and a report "
+                   "built without the configuration points at a later line / column after any non-ASCII text, or loses its location "
+                   "(`every location a diagnostic mentions lies inside the file`)")
+    cfg = next((p for p in facts.bodies() if p.endswith("::report_config") and p.startswith("zydeco_surface::")), None)
+    if cfg is not None:
+        h = facts.hir(cfg)
+        byte = any(H.kind(x) == "Path" and str((x.get("res") or {}).get("def") or "").endswith("IndexType::Byte") for x in H.walk(h["body"]))
+        ctx.check(byte, rule, "report_config:byte", "report_config() does not select ariadne::IndexType::Byte", facts.bodies()[cfg]["loc"])
+    # without the shared configuration every construction site below is reported
+    n = 0
+    for p, bd in sorted(facts.bodies().items()):
+        if "::tests::" in p or "{closure" in p or not bd["loc"][0].startswith(("lang/", "cli/", "editor/", "tui/")):
+            continue
+        h = facts.hir(p)
+        if h is None:
+            continue
+        builds = [x for x in H.walk(h["body"]) if H.kind(x) in ("Call", "MethodCall") and re.search(r"^ariadne::Report::<.*>::build$", H.callee(x) or "")]
+        if not builds:
+            continue
+        configured = [x for x in H.walk(h["body"]) if H.kind(x) == "MethodCall" and x["name"] == "with_config"
+                      and any(H.kind(y) in ("Call", "MethodCall") and (H.callee(y) or "").endswith("::report_config") for y in H.walk(x["args"][0]))
+                      and any(b is y for b in builds for y in H.walk(x["recv"]))]
+        n += len(builds)
+        ctx.check(len(configured) >= len(builds), rule, "%s:configured" % M.short_fn(p), "%s builds %d report(s) and configures %d with "
+                  "report_config(): a report with ariadne's default (character) index type misplaces byte spans after non-ASCII text"
+                  % (p, len(builds), len(configured)), [bd["loc"][0], builds[0].get("ln")], detail={"reports": len(builds)})
+    ctx.floor(rule, "report construction sites", n, 8)
